@@ -167,6 +167,24 @@ class FileBufferedCollection(BufferedCollection):
         """Acquire the buffer lock."""
         return type(self)._BUFFER_LOCK
 
+    def clear(self):  # noqa: D102
+        # clear() and reset() lock the collection and then save, which locks
+        # the buffer. All other mutators (see _BufferedLoadAndSave) lock the
+        # buffer first, so the same order must be used here to avoid deadlocks.
+        # Nested collections go through the root's load-and-save context.
+        if self._root is None:
+            with self._buffer_lock:
+                super().clear()
+        else:
+            super().clear()
+
+    def reset(self, data):  # noqa: D102
+        if self._root is None:
+            with self._buffer_lock:
+                super().reset(data)
+        else:
+            super().reset(data)
+
     def _get_file_metadata(self):
         """Return metadata of file.
 
